@@ -5,6 +5,7 @@ package main
 
 import (
 	"fmt"
+	"go/constant"
 	"go/token"
 	"go/types"
 	"os"
@@ -13,6 +14,7 @@ import (
 	"sort"
 	"strings"
 
+	"golang.org/x/text/unicode/norm"
 	"golang.org/x/tools/go/callgraph"
 	"golang.org/x/tools/go/callgraph/cha"
 	"golang.org/x/tools/go/callgraph/vta"
@@ -119,6 +121,10 @@ func (p *Prog) InModule(fn *ssa.Function) bool {
 	if pk == nil {
 		if fn.Parent() != nil {
 			return p.InModule(fn.Parent())
+		}
+		// an instantiation of a generic function belongs to the package of the generic
+		if o := fn.Origin(); o != nil && o != fn {
+			return p.InModule(o)
 		}
 		// synthetic wrappers/thunks: attribute to the receiver's package
 		if fn.Signature.Recv() != nil {
@@ -348,6 +354,9 @@ func fnPkgPath(fn *ssa.Function) string {
 	if fn.Parent() != nil {
 		return fnPkgPath(fn.Parent())
 	}
+	if o := fn.Origin(); o != nil && o != fn {
+		return fnPkgPath(o)
+	}
 	return ""
 }
 
@@ -514,12 +523,161 @@ func (p *Prog) OwnedBy(fn *ssa.Function, owner string) bool {
 		if depth > 3 || len(css) == 0 {
 			return false
 		}
+		outside := 0
 		for _, cs := range css {
+			if cs.Parent() == f {
+				continue // a helper calling itself
+			}
+			outside++
 			if cs.Common().StaticCallee() != f || !rec(cs.Parent(), depth+1) {
 				return false
 			}
 		}
-		return true
+		return outside > 0
 	}
 	return rec(fn, 0)
+}
+
+// WordSwitch: a function whose whole body is a switch over its one string parameter with constant cases, every arm (and
+// the fall-through) returning a constant — a table from words to values written as code (identifierType(text) in place
+// of a keywords map).  Returns the table keyed by the Go string, the default, and whether fn has that shape.
+type wordSwitch struct {
+	Cases   map[string]AV
+	Default AV
+}
+
+var wordSwitchCache = map[*ssa.Function]*wordSwitch{}
+var wordSwitchDone = map[*ssa.Function]bool{}
+
+func (p *Prog) WordSwitch(fn *ssa.Function) *wordSwitch {
+	if wordSwitchDone[fn] {
+		return wordSwitchCache[fn]
+	}
+	wordSwitchDone[fn] = true
+	if fn == nil || fn.Blocks == nil || len(fn.Params) != 1 || fn.Signature.Results().Len() != 1 || len(fn.FreeVars) != 0 {
+		return nil
+	}
+	if b, ok := fn.Params[0].Type().Underlying().(*types.Basic); !ok || b.Kind() != types.String {
+		return nil
+	}
+	prm := fn.Params[0]
+	ws := &wordSwitch{Cases: map[string]AV{}}
+	retConst := func(b *ssa.BasicBlock) (AV, bool) {
+		for hops := 0; hops < 4; hops++ {
+			if len(b.Instrs) == 1 {
+				if j, ok := b.Instrs[0].(*ssa.Jump); ok {
+					_ = j
+					b = b.Succs[0]
+					continue
+				}
+			}
+			break
+		}
+		if len(b.Instrs) != 1 {
+			return AV{}, false
+		}
+		r, ok := b.Instrs[0].(*ssa.Return)
+		if !ok || len(r.Results) != 1 {
+			return AV{}, false
+		}
+		c, ok := r.Results[0].(*ssa.Const)
+		if !ok {
+			return AV{}, false
+		}
+		return constAV(c), true
+	}
+	b := fn.Blocks[0]
+	seen := map[*ssa.BasicBlock]bool{}
+	for {
+		if seen[b] {
+			return nil
+		}
+		seen[b] = true
+		if v, ok := retConst(b); ok {
+			ws.Default = v
+			break
+		}
+		// block: [DebugRef…] t = prm == "k"; if t goto arm else next
+		var instrs []ssa.Instruction
+		for _, in := range b.Instrs {
+			if _, dbg := in.(*ssa.DebugRef); !dbg {
+				instrs = append(instrs, in)
+			}
+		}
+		if len(instrs) != 2 {
+			return nil
+		}
+		bo, ok1 := instrs[0].(*ssa.BinOp)
+		iff, ok2 := instrs[1].(*ssa.If)
+		if !ok1 || !ok2 || bo.Op != token.EQL || iff.Cond != ssa.Value(bo) {
+			return nil
+		}
+		var k *ssa.Const
+		if bo.X == ssa.Value(prm) {
+			k, _ = bo.Y.(*ssa.Const)
+		} else if bo.Y == ssa.Value(prm) {
+			k, _ = bo.X.(*ssa.Const)
+		}
+		if k == nil || k.Value == nil || k.Value.Kind() != constant.String {
+			return nil
+		}
+		v, ok := retConst(b.Succs[0])
+		if !ok {
+			return nil
+		}
+		key := constant.StringVal(k.Value)
+		if _, dup := ws.Cases[key]; !dup {
+			ws.Cases[key] = v
+		}
+		b = b.Succs[1]
+	}
+	if len(ws.Cases) == 0 {
+		return nil
+	}
+	wordSwitchCache[fn] = ws
+	return ws
+}
+
+// KeywordTable: the scanner's table from words to token types, whichever way it is written — a package-level map of
+// package lexer filled by its initialiser (string keys, constant token values) or a word-switch function of that
+// package returning token types.  Keys are NFC-normalised; values are token names.
+func (p *Prog) KeywordTable() map[string]string {
+	names := p.tokenNames()
+	got := map[string]string{}
+	pk := p.Pkg("lexer")
+	if pk == nil {
+		return got
+	}
+	if init := pk.Func("init"); init != nil {
+		instrsOf(init, func(in ssa.Instruction) {
+			mu, ok := in.(*ssa.MapUpdate)
+			if !ok {
+				return
+			}
+			k, ok1 := mu.Key.(*ssa.Const)
+			v, ok2 := constInt(mu.Value)
+			if mt, isMap := mu.Map.Type().Underlying().(*types.Map); !isMap || !types.Identical(mt.Key().Underlying(), types.Typ[types.String]) {
+				return
+			}
+			if ok1 && ok2 && k.Value != nil && k.Value.Kind() == constant.String {
+				got[norm.NFC.String(constant.StringVal(k.Value))] = names[v]
+			}
+		})
+	}
+	if len(got) > 0 {
+		return got
+	}
+	for _, fn := range p.ModuleFuncs() {
+		if fn.Package() != pk || fn.Signature.Results().Len() != 1 || typeStr(fn.Signature.Results().At(0).Type()) != "token.TokenType" {
+			continue
+		}
+		if ws := p.WordSwitch(fn); ws != nil {
+			for k, v := range ws.Cases {
+				if v.K == KInt {
+					got[norm.NFC.String(k)] = names[v.I]
+				}
+			}
+		}
+	}
+	return got
 }
